@@ -23,6 +23,7 @@ def run(ctx, rep):
     rep.rule("R18.3", "every client socket stored by the TCP registry is released on every loop path")
     rep.rule("R18.4", "service names are normalised (upper-cased) at every access of the services table")
     rep.rule("R18.5", "added/removed notifications are tied to actual membership changes; callback failures are contained")
+    rep.rule("R18.7", "replies and stored values are always encodable: the codec is total and closed on what it decodes (= R04.1-R04.6)")
     rep.rule("R18.6", "a query returns the non-stale entries in ascending refresh order and prunes the stale ones")
     rep.assume("clock behaviour, UDP loss and ties between equal timestamps are not decided",
                "logger calls take their arguments lazily and do not fail")
@@ -438,3 +439,5 @@ def run(ctx, rep):
     okret = any(A.src(r.value).startswith("tuple(") for r in rets) and any(A.src(r.value) == "()" for r in rets)
     rep.ob("R18.6", "cmd_query: replies are tuples (serializable)", okret, "tuple(servers) / ()" if okret else
            "cmd_query returns a non-tuple", fq.loc, kind="site")
+
+    K.share(ctx, rep, "c04", lambda o: o.rule in ("R04.1", "R04.2", "R04.3", "R04.4", "R04.5", "R04.6"), "R18.7", floor=20)
